@@ -1031,6 +1031,7 @@ func c13Surroundings(c *Check) {
 	c.Rule("R9", "a connection refused by DANE is really gone: smtpconn.C.Close leaves no usable client behind, whatever QUIT was answered (attemptMX enforces the refusal by closing; newConn goes on with a connection that still has a client) (C05.R12)", 1)
 	importRules(c, "C05", func(s *Check) { c05CloseCloses(s, "R12") }, map[string]bool{"R12": true}, "R9")
 	c13FQDNKeepsEncoding(c, "R10")
+	c13NoFrozenClock(c, "R11", []string{"internal/target/remote", "framework/dns"})
 	c.Rule("R5c", "extended resolver: an AuthenticatedData flag read inside a loop over the answers of a response belongs to that same response", 2)
 	pk := p.Pkg("framework/dns")
 	if pk == nil {
